@@ -81,6 +81,8 @@ def run_case(case):
         payload = R.build_roland(c02.norm_model(case["model"]))[0]
     if case.get("drop_sectors"):
         payload = payload[:len(payload) - 8192 * case["drop_sectors"]]
+    if case.get("keep_sectors"):
+        payload = payload[:8192 * case["keep_sectors"]]
     if case.get("drop_bytes"):
         # the image file ends a little before the end of its last allocated cluster (the audio does not reach that far)
         payload = payload[:len(payload) - case["drop_bytes"]]
@@ -92,7 +94,7 @@ def run_case(case):
     with scratch_dir("c09") as d:
         paths = write_encodings(d, payload)
         base = None
-        cut = any(case.get(k) for k in ("drop_sectors", "drop_bytes", "drop_2048"))
+        cut = any(case.get(k) for k in ("drop_sectors", "drop_bytes", "drop_2048", "keep_sectors"))
         for enc in ENCODINGS:
             if cut and enc.endswith("_mixed"):
                 # behind an image that ends early the audio track would stand where the missing bytes were: not the same image
@@ -169,7 +171,7 @@ class Check(CheckBase):
     rule = ("case library = AKAI length/header/structure sweeps of C01 (quick: every 4th + all boundary lengths) and Roland "
             "chains/window/header sweeps of C02 (quick: every 12th; odd cluster counts make cluster reads straddle 2048-byte "
             "user-data boundaries) x trailing bytes {0,1,2047,2048} (zero and non-zero), one small image with every trailing sector count 0..127 "
-            "(thorough 0..511), truncated payloads (whole sectors dropped; the image ending inside the audio of its last sample; Roland images ending 1..2048 bytes before the end of their last cluster), x the encodings {raw, MODE1/2352, "
+            "(thorough 0..511), truncated payloads (whole sectors dropped; the image ending inside the audio of its last sample, or right behind the last sector of a sample that fills it exactly / nearly; Roland images ending 1..2048 bytes before the end of their last cluster), x the encodings {raw, MODE1/2352, "
             "MDX (version 2.1 with the descriptor behind the payload; version 2.0 without), 2352-byte sectors followed by an audio track (bare and through its cue sheet), cue->raw, cue->2352, cue in another directory naming its bin with a path, cue->raw written with lower/mixed case "
             "keywords, header and unknown lines, tabs, blank lines and CR LF} as real files: same image class, character-identical ls text at every node reachable "
             "through the printed names, identical exported trees (paths + bytes); cue dispatch: all combinations of "
@@ -199,6 +201,11 @@ class Check(CheckBase):
         last = c01.one_file_spec(10000, 0, 10000, "rev")
         for k in (1, 2, 3, 4, 5, 7, 9):
             cases.append({"fmt": "akai", "spec": last, "trailing": 0, "trail_kind": "zero", "drop_2048": k})
+        # the image ends RIGHT BEHIND the last sector of its last sample (a dump that stops with the last used sector), the
+        # sample filling that sector exactly / nearly: the last bytes of the image are audio
+        for n, chain in ((4026, [4]), (4025, [4]), (4000, [4]), (8122, [4, 5]), (8122, [5, 4]), (12218, [4, 5, 6])):
+            spec = {"parts": [{"vols": [{"name": "VOL", "dir": [3], "files": [{"name": "SMP", "n": n, "chain": chain, "seq": 1}]}]}]}
+            cases.append({"fmt": "akai", "spec": spec, "trailing": 0, "trail_kind": "zero", "keep_sectors": max(chain) + 1})
         # every sector count in a consecutive range (one small image + t trailing 2048-byte sectors): covers every
         # residue of the raw-sector count modulo anything up to the range length
         small = c01.one_file_spec(300, 0, 300)
